@@ -78,7 +78,11 @@ class Env:
         return self.error_indicator() == 0
 
     def new_object(self, name, ghost):
+        """a fresh object returned by an API call: a new reference (ob_refcnt >= 1, not immortal)"""
         r = self.ex.new_region(name, size=None)
+        rc = self.ex.newbv(name + '.ob_refcnt', 64)
+        r.fields[OB_REFCNT] = (8, rc)
+        self.ex.assumptions.append(z3.And(rc >= 1, rc < (1 << 30)))
         self.ghost[r.id] = ghost
         return r
 
@@ -308,6 +312,13 @@ class Env:
         @stub('__Pyx_ErrOccurredWithGIL')
         def _(g, a, rt):
             return z3.If(self.error_indicator() != 0, z3.BitVecVal(1, 32), z3.BitVecVal(0, 32))
+
+        @stub('labs', 'llabs', 'abs')
+        def _(g, a, rt):
+            x = a[0]
+            w = x.size()
+            ex.ub.append((z3.And(g, x == z3.BitVecVal(1 << (w - 1), w)), 'abs()/labs() of the most negative value', 'libc'))
+            return z3.If(x < 0, -x, x)
 
         @stub('PyObject_RichCompareBool')
         def _(g, a, rt):
